@@ -1012,7 +1012,13 @@ def reporting_job(case):
     rep = case.get("reporting") or gen_series(rng, rng.randrange(10**6))
     m = len(rep["rows"])
     freq = case.get("freq") or rng.choice(["hourly", "daily", "billing"])
-    idx = pd.date_range("2023-01-01", periods=m, freq={"hourly": "h", "daily": "D", "billing": "30D"}[freq], tz="UTC")
+    # time zone of the reporting rows (UTC, negative / positive offsets, with and without DST, naive) and start:
+    # mostly local midnight on the 1st of a month, so that a month count taken in another zone is off by one
+    tz = case["tz"] if "tz" in case else rng.choice(["UTC", "US/Pacific", "America/Bogota", "America/St_Johns", "Europe/Berlin", "Asia/Tokyo",
+                                                     "Asia/Kolkata", "Australia/Sydney", "Pacific/Auckland", None])
+    start = case.get("start") or "2023-%02d-%02d %02d:00" % (rng.randint(1, 12), rng.choice([1, 1, 1, 15, 28]), rng.choice([0, 0, 0, 1, 23]))
+    step = case.get("step") or {"hourly": "h", "daily": "D", "billing": rng.choice(["30D", "MS"])}[freq]
+    idx = pd.date_range(pd.Timestamp(start, tz=tz), periods=m, freq=step)
     conf = case.get("conf") or rng.choice([0.9, 0.8, 0.95, 0.68])
     tail = case.get("tail") or rng.choice([1, 2])
     rdf = frame_of(rep, index=idx)
@@ -1026,8 +1032,9 @@ def reporting_job(case):
             out[f] = "raise"
             out[f + "_exc"] = type(e).__name__
     rp = finite_pairs(rep)
-    rcase = dict(case, reporting=rep, freq=freq, conf=conf, tail=tail)
-    res = {"case": rcase, "out": out, "freq": freq, "nrep": len(rp), "fails": []}
+    rcase = dict(case, reporting=rep, freq=freq, conf=conf, tail=tail, tz=tz, start=start, step=step)
+    res = {"case": rcase, "out": out, "freq": freq, "nrep": len(rp), "fails": [], "tz": tz,
+           "first_of_month": start[8:10] == "01" and start[11:13] == "00"}
     if not rp:
         return res
     so, sp = sum(a for a, _ in rp), sum(b for _, b in rp)
@@ -1037,7 +1044,9 @@ def reporting_job(case):
             res["fails"].append(({"defect": "statistic differs from the textbook formula", "field": "reporting." + f, "call": "ReportingMetrics"},
                                  "C16 ReportingMetrics.%s = %r, textbook %.12g" % (f, g, float(want))))
     # uncertainty: the inputs are n, n', m, E = predicted_sum, cvrmse_autocorr_adj, t (scipy) and the frequency factor
+    # M = number of distinct calendar months of the finite rows, on the rows' own (local) clock
     months = len(set(t.month for t, (o, p) in zip(idx, rep["rows"]) if fin(o) and fin(p)))
+    res["months"] = months
     factor = 1.26 if freq == "hourly" else float(np.polyval([-0.00024, 0.03535, 1.00286] if freq == "daily" else
                                                              [-0.00022, 0.03306, 0.94054], months))
     cv, npv, tst, u = bf["cvrmse_autocorr_adj"], bf["n_prime"], out["t_stat"], out["total_savings_uncertainty"]
@@ -1050,7 +1059,8 @@ def reporting_job(case):
         if not isinstance(u, float) or not close(Fr(u) ** 2, want_sq) or (want_sq != 0 and (u > 0) != (lin > 0)):
             res["fails"].append(({"defect": "statistic differs from the textbook formula", "field": "reporting.total_savings_uncertainty",
                                   "call": "ReportingMetrics"},
-                                 "C16 ReportingMetrics.total_savings_uncertainty = %r, ASHRAE form gives %.12g" % (u, float(fsqrt(want_sq)))))
+                                 "C16 ReportingMetrics.total_savings_uncertainty = %r, ASHRAE form gives %.12g (%s rows in zone %s from %s: M = %d local calendar months)" % (
+                                     u, float(fsqrt(want_sq)), freq, tz, start, months)))
     res["term"] = ("{| rc_den := %d%%positive; rc_rows := %s; rc_t_factor := (%s, %s); rc_cv := %s; rc_n := %s; rc_np := %s; rc_exp := %s |}" % (
         rep["den"], coq_rows(rep["rows"]), flit(tst), flit(factor), obsv(cv), zlit(len(pairs)), obsv(npv),
         coq_list([obsv(out[f]) for f in ("n", "observed_sum", "predicted_sum", "savings", "total_savings_uncertainty")])))
@@ -1065,6 +1075,9 @@ def stream_reporting(run, cases):
         out = r["out"]
         run.count(("rep", vlib.sha(r["case"])), nontrivial=r["nrep"] >= 1)
         run.dist("reporting frequency", r["freq"])
+        run.dist("reporting time zone", str(r["tz"]) + (" / starts at local midnight on the 1st" if r["first_of_month"] else ""))
+        if r["freq"] != "hourly" and "months" in r:
+            run.dist("reporting months M", r["months"])
         run.dist("reporting uncertainty", "number" if isinstance(out["total_savings_uncertainty"], float) else str(out["total_savings_uncertainty"]))
         for sig, msg in r["fails"]:
             run.violation(sig, msg, case={"stream": "reporting", "case": r["case"]}, observation=out, generator="c16.reporting_job")
@@ -1622,6 +1635,8 @@ def main():
         "small residual over a non-positive mean), length 1..2000, NaN/+-inf cells with density 0/0.05/0.3/1, num_model_params "
         "from 1 to n+2; _safe_divide on a grid around 0, min_denominator and 10*min_denominator plus random triples, Python and "
         "numpy scalars; gate thresholds default / just above / just below the reported ratios / zero / negative / huge; "
+        "ReportingMetrics over hourly / daily / billing indexes in UTC, negative- and positive-offset zones with and without DST "
+        "and naive, mostly starting at local midnight on the 1st of a month (M = distinct local calendar months); "
         "stubbed hourly and daily/billing fits; a few real fits. distinct = hash of (series, parameters); non-trivial = at "
         "least two finite pairs")
     run.assumptions += [
